@@ -45,6 +45,16 @@ CLAIMED = {
             'Trusts the stub HTTP client and stub URL table; hooks disconnected; strategies bounded to 6 symbolic answers, limits 0..3 (quick 0..1), '
             'tries 1..5 (quick 1..3); tries=0 (unlimited) excluded.',
             'DESIGN.md 3/C18', 'status codes and limits symbolic integers, server strategy symbolic'),
+    'C12': ('other',
+            'Bounded symbolic verification on the real HostPool/ConnectionPool: (1) inductive step - from an arbitrary invariant-satisfying '
+            'pre-state (symbolic sizes, limit, closed flags) one acquire/release/clean driven by hand with a cancellation thrown in at a '
+            'symbolic suspension point must preserve the invariant, mutate only under the lock, never suspend holding it and leave it free; '
+            '(2) wake-up and waiter-count steps; (3) schedule exploration on a choice-driven asyncio loop: every scheduler decision of N '
+            'clients on one HostPool is symbolic (all schedules), and on the ConnectionPool all schedules within a preemption bound of 2, '
+            'with cancellation at a symbolic step and remote close. Safety rests on (1); liveness/leak-freedom on (3).',
+            'Trusts harness/aio.py (hand driver, ChoiceLoop), stub connections, asyncio itself; bounds N<=2 (thorough 3), M<=2, H<=2, one '
+            'cancellation per run; schedule leaves are concrete runs enumerated by the solver.',
+            'DESIGN.md 3/C12', 'pre-state, cancellation point and scheduler decisions symbolic'),
 }
 
 NOT_APPLICABLE = {
@@ -54,7 +64,7 @@ NOT_APPLICABLE = {
 }
 
 PENDING = {k: 'claimed in DESIGN.md 3 but its check is not built yet at this commit' for k in
-           'C04 C05 C07 C08 C09 C10 C12 C13 C15 C16 C17 C19 C20'.split()}
+           'C04 C05 C07 C08 C09 C10 C13 C15 C16 C17 C19 C20'.split()}
 
 
 def main():
